@@ -266,6 +266,8 @@ func (w *vfWorld) totpCode(user string, at time.Time) string {
 // prepareStep turns a plan step into a prepared request (or environment action).
 // Unresolvable references make the step a no-op (nil), so shrunk plans stay valid.
 func (w *vfWorld) prepareStep(st vfStep) *vfPrepared {
+	w.pendingMods = st.L
+	defer func() { w.pendingMods = nil }()
 	p := &vfPrepared{step: st}
 	s := w.session(st.Sess)
 	p.sess = s
